@@ -66,7 +66,7 @@ def affineByte (matrix : List Nat) (imm8 x : Nat) : Nat :=
     (fun r i => r + (parity8 (matrix.getD (7 - i) 0 &&& x) ^^^ bit imm8 i) * 2 ^ i) 0
 
 /-- SDM table "Inverse Byte Listings": the inverse in GF(2)[x]/(x^8+x^4+x^3+x+1), `0 ↦ 0`
-    (proved equal to `x^254` in that field: `Proofs/ISAValFacts.lean`) -/
+    (proved equal to `x^254` in that field: `aesInv_eq`, SMGo/Proofs/ISAValGF.lean) -/
 def aesInvTable : List Nat :=
   [0x00, 0x01, 0x8d, 0xf6, 0xcb, 0x52, 0x7b, 0xd1, 0xe8, 0x4f, 0x29, 0xc0, 0xb0, 0xe1, 0xe5, 0xc7,
    0x74, 0xb4, 0xaa, 0x4b, 0x99, 0x2b, 0x60, 0x5f, 0x58, 0x3f, 0xfd, 0xcc, 0xff, 0x40, 0xee, 0xb2,
